@@ -1119,7 +1119,11 @@ def run(ctx):
                 "on a real FacadeAppleTV with each collaborator named in their source failing: no takeover may be left; "
                 "(f) per device profile and set of configured services, assembled as pyatv.connect does with the real objects: "
                 "stream_file kept in flight (http_connect never returns), every member of the taken-over interfaces that the "
-                "streaming protocol implements must be executed by it. "
+                "streaming protocol implements must be executed by it; (g) HISTORIES (all of length <= 3; thorough: 4) of streaming "
+                "operations on one such device object - stream_file completes / fails after its takeover / is in flight / "
+                "cancelled, the same for play_url, another protocol takes/releases through its core - judged after every step: "
+                "the holder of every interface is exactly the protocol of an accepted operation still in flight (or live "
+                "token), and probe calls go to the holder, then by priority. "
                 "non-trivial = some instance executed the call / some takeover succeeded; distinct by canonical case")
     # ---------------------------------------------------------------- corpus first
     for fname, d in common.load_corpus(ctx.pid):
@@ -1364,6 +1368,37 @@ def run(ctx):
                 ctx.violation(key, what, {"kind": "inflight", "profile": r["profile"], "services": r["services"], "added": r["added"],
                                           "member": call["member"], "executed_by": call["executed_by"],
                                           "takeovers_requested": r["takeovers_requested"], "holders_recorded": r["holders_recorded"]})
+    # ---------------------------------------------------------------- (g) histories of streaming operations on ONE device object
+    names = [p_[0] for p_ in c13.PROFILES]
+    hprofiles = ["atv4k_tvos15_hap_tunnel_disabled", "atv3_legacy", "homepod_mini_hap"] if not ctx.thorough else names
+    variants = [("open_source", "http_connect")] if not ctx.thorough else \
+        [("open_source", "http_connect"), ("setup", "RtspSession"), ("extract_credentials", "AirPlayPlayer")]
+    hs3 = stream_histories(3)
+    hs3 = [h for h in hs3 if len(h) == 3] + [h for h in hs3 if len(h) < 3]
+    plan = [(pn, v, h) for pn in hprofiles for v in variants for h in hs3]
+    if ctx.thorough:
+        plan += [(hprofiles[2], variants[0], h) for h in stream_histories(4) if len(h) == 4]
+    plan.sort(key=lambda x: len(x[2]))
+    for pn, (sfv, puv), ops in plan:
+        try:
+            r = vloop.run(drive_stream_history, names.index(pn), ["MRP", "AirPlay", "RAOP"], ops, sfv, puv)
+        except Exception:  # noqa
+            ctx.count("stream-history:harness-error")
+            continue
+        ctx.traces += 1
+        if r.get("setup_exception"):
+            ctx.count("stream-history:setup-exception")
+            ctx.tie_broken("driver:stream-history", json.dumps({"profile": pn, "ops": ops, "exception": r["setup_exception"]}))
+            continue
+        ctx.count("stream-history-len%d" % len(ops))
+        ctx.case(("stream-history", pn, sfv, puv, tuple(ops)), nontrivial=any(st["holders"] for st in r["steps"]),
+                 sample={"kind": "stream-history", "profile": pn, "ops": ops, "steps": r["steps"]} if ops == ["SF_ok", "PU_start", "SF_start"] else None)
+        v = judge_stream_history(r)
+        if v:
+            ctx.violation(v[0], "device profile %s, services %s, operations %s (stream_file fault at %s, play_url fault at %s): %s" % (
+                pn, r["services"], ops, sfv, puv, v[1]),
+                {"kind": "stream-history", "profile": pn, "services": r["services"], "ops": ops, "sf_fault": sfv, "pu_fault": puv,
+                 "failing_step": v[2], "steps": r["steps"][:v[2] + 1]})
     ctx.extra["entry_fault_points"] = [[a, b, ".".join(c)] for a, b, c, d in efc if d == "call"]
     ctx.note("histories done %.1fs" % (time.time() - ctx.t0))
     ctx.extra["gen_tables"] = {"default_ast": t["default_ast"], "power_ast": t["power_ast"], "rows": len(rows),
@@ -1640,6 +1675,332 @@ async def drive_inflight(pidx, services):
     return res
 
 
+async def assemble_bound(pidx, services, log, tklog):
+    """Device object assembled as pyatv.connect() does under one device profile (see drive_inflight); real Stream
+    objects, everything else records.  Every takeover request made through a core is appended to tklog."""
+    from functools import partial
+    import c13
+    from pyatv import conf, interface
+    from pyatv.core import CoreStateDispatcher, MutableService, create_core
+    from pyatv.core.facade import FacadeAppleTV
+    from pyatv.protocols import PROTOCOLS
+    from pyatv.settings import Settings, MrpTunnel
+    prof = c13.PROFILES[pidx]
+    svcs = c13.profile_services(prof)
+    srcs = [p for p in c13.PYATV_ORDER if p in services]
+    cfg = conf.AppleTV(IPv4Address("127.0.0.1"), prof[0])
+    for src in srcs:
+        props, cred = svcs[src]
+        cfg.add_service(MutableService("verif-id", P(src), 9, props, credentials=cred))
+    settings = Settings()
+    settings.protocols.airplay.mrp_tunnel = MrpTunnel(prof[7])
+    disp = CoreStateDispatcher()
+    atv = FacadeAppleTV(cfg, None, disp, settings)
+    real_takeover = atv.takeover
+
+    def rec_takeover(protocol, *ifs):
+        ent = {"protocol": protocol.name, "ifaces": [getattr(i, "__name__", str(i)) for i in ifs], "accepted": False}
+        tklog.append(ent)
+        tok = real_takeover(protocol, *ifs)
+        ent["accepted"] = True
+        return tok
+    d = {"atv": atv, "cores": [], "core_of": {}, "impl": {}, "added": [], "streams": {}, "profile": prof[0], "services": srcs}
+
+    class SM:       # no HTTP session is needed by the protocols assembled here unless DMAP is among them
+        session = None
+
+        async def close(self):
+            return None
+    for src in srcs:
+        core = await create_core(cfg, cfg.get_service(P(src)), settings=settings, device_listener=atv,
+                                 session_manager=None if "DMAP" in srcs else SM(),
+                                 core_dispatcher=disp, takeover_method=partial(rec_takeover, P(src)))
+        d["cores"].append(core)
+        d["core_of"][src] = core
+        for sd in PROTOCOLS[P(src)].setup(core):
+            p = sd.protocol.name
+            first = p not in [a.split(">")[1] for a in d["added"]]
+            for k, inst in sd.interfaces.items():
+                if first and k.__name__ in RELAYED:
+                    d["impl"][(p, k.__name__)] = [m for m, _ in public_members(k) if overrides_mro(type(inst), k, m)]
+                if k is interface.Features:
+                    pass
+                elif k is interface.Stream:
+                    if first:
+                        d["streams"][p] = inst
+                    c13.swap_stream(inst, p, log)
+                else:
+                    c13.swap_class(inst, k, p, k.__name__, log)
+            atv.add_protocol(await c13.offline(sd))
+            d["added"].append("%s>%s" % (src, p))
+    await atv.connect()
+    return d
+
+
+SH_OPS = ["SF_ok", "SF_fail", "SF_start", "SF_cancel", "PU_ok", "PU_fail", "PU_start", "PU_cancel", "X_take", "X_release"]
+SH_PROBES = [("RemoteControl", "stop"), ("Audio", "set_volume"), ("Metadata", "playing")]
+
+
+async def drive_stream_history(pidx, services, ops, sf_fault="open_source", pu_fault="http_connect"):
+    """A HISTORY of streaming operations on ONE device object (assembled as pyatv.connect does, real Stream code,
+    takeovers through the cores):
+      SF_ok / SF_fail   RAOP stream_file runs to completion (collaborators replaced by working fakes) / fails at
+                        the collaborator `sf_fault` after its takeover
+      SF_start / SF_cancel   stream_file is started and stays in flight (http_connect never returns) / is cancelled
+      PU_ok / PU_fail / PU_start / PU_cancel   the same for AirPlay play_url
+      X_take / X_release     another protocol (MRP) takes RemoteControl+Audio through its own core / releases
+    After every step: recorded holder of every interface, and who executes three probe calls."""
+    import sys
+    import types
+    quiet()
+    log, tklog = [], []
+    never = asyncio.Event()
+
+    async def blocked(*a, **k):
+        await never.wait()
+
+    class Obj:
+        """stands for a collaborator that works: every method is an async no-op"""
+        info = {}
+
+        def __init__(self, *a, **k):
+            pass
+
+        def __getattr__(self, name):
+            if name.startswith("__"):
+                raise AttributeError(name)
+
+            async def ok(*a, **k):
+                return None
+            return ok
+
+        def close(self):
+            return None
+
+        def stop(self):
+            return None
+
+    async def aobj(*a, **k):
+        return Obj()
+
+    async def boom(*a, **k):
+        raise Fault("verif fault")
+    import pyatv.protocols.raop  # noqa
+    import pyatv.protocols.airplay  # noqa
+    mods = {mn: sys.modules[mn] for mn in ("pyatv.protocols.raop", "pyatv.protocols.airplay")}
+    saved = []
+
+    def patch(holder, name, val):
+        old = holder[name] if isinstance(holder, dict) else getattr(holder, name)
+        saved.append((holder, name, old))
+        if isinstance(holder, dict):
+            holder[name] = val
+        else:
+            setattr(holder, name, val)
+
+    def unpatch(n):
+        while len(saved) > n:
+            holder, name, old = saved.pop()
+            if isinstance(holder, dict):
+                holder[name] = old
+            else:
+                setattr(holder, name, old)
+    steps = []
+    tasks = {}
+    xtok = [None]
+    d = None
+    try:
+        for m in mods.values():
+            if hasattr(m, "http_connect"):
+                patch(m, "http_connect", blocked)
+        base_patches = len(saved)
+        d = await assemble_bound(pidx, services, log, tklog)
+        atv = d["atv"]
+        raop, airplay = d["streams"].get("RAOP"), d["streams"].get("AirPlay")
+
+        async def settle(task, n0):
+            for _ in range(200):
+                await asyncio.sleep(0)
+                if task.done() or (len(tklog) > n0 and tklog[-1]["accepted"]):
+                    break
+
+        for op in ops:
+            n0 = len(tklog)
+            obs = {"op": op, "result": None}
+            try:
+                if op in ("SF_ok", "SF_fail", "SF_start"):
+                    if op != "SF_start":
+                        async def fake_setup(service):
+                            return Obj(), types.SimpleNamespace(sample_rate=44100, channels=2, bytes_per_channel=2, volume=-20.0)
+                        patch(raop.playback_manager, "setup", fake_setup)
+                        patch(mods["pyatv.protocols.raop"], "open_source", aobj)
+                        if op == "SF_fail":
+                            tgt = mods["pyatv.protocols.raop"] if sf_fault != "setup" else raop.playback_manager
+                            patch(tgt, sf_fault, boom)
+                    t = asyncio.ensure_future(atv.stream.stream_file("verif-no-such-file"))
+                    if op == "SF_start":
+                        await settle(t, n0)
+                        if not t.done():
+                            tasks["SF"] = t
+                    else:
+                        try:
+                            await asyncio.wait_for(t, 5)
+                        except BaseException:  # noqa
+                            pass
+                    if t.done():
+                        obs["result"] = "done:" + (type(t.exception()).__name__ if not t.cancelled() and t.exception() else "ok")
+                    else:
+                        obs["result"] = "in-flight"
+                elif op in ("PU_ok", "PU_fail", "PU_start"):
+                    if op != "PU_start":
+                        am = mods["pyatv.protocols.airplay"]
+                        patch(am, "http_connect", aobj)
+                        patch(am, "RtspSession", Obj)
+                        patch(am, "AirPlayPlayer", Obj)
+                        if op == "PU_fail":
+                            patch(am, pu_fault, boom if pu_fault == "http_connect" else faulty("use"))
+                    t = asyncio.ensure_future(atv.stream.play_url("http://127.0.0.1:9/x"))
+                    if op == "PU_start":
+                        await settle(t, n0)
+                        if not t.done():
+                            tasks["PU"] = t
+                    else:
+                        try:
+                            await asyncio.wait_for(t, 5)
+                        except BaseException:  # noqa
+                            pass
+                    if t.done():
+                        obs["result"] = "done:" + (type(t.exception()).__name__ if not t.cancelled() and t.exception() else "ok")
+                    else:
+                        obs["result"] = "in-flight"
+                elif op in ("SF_cancel", "PU_cancel"):
+                    t = tasks.pop(op[:2], None)
+                    if t is not None:
+                        t.cancel()
+                        try:
+                            await t
+                        except BaseException:  # noqa
+                            pass
+                        obs["result"] = "cancelled"
+                    else:
+                        obs["result"] = "nothing-in-flight"
+                elif op == "X_take":
+                    try:
+                        xtok[0] = d["core_of"]["MRP"].takeover(iface_cls("RemoteControl"), iface_cls("Audio"))
+                        obs["result"] = "taken"
+                    except Exception as ex:  # noqa
+                        obs["result"] = "raised:" + type(ex).__name__
+                elif op == "X_release":
+                    if xtok[0]:
+                        xtok[0]()
+                        xtok[0] = None
+                        obs["result"] = "released"
+                    else:
+                        obs["result"] = "nothing-held"
+            finally:
+                unpatch(base_patches)
+            obs["requests"] = [dict(e) for e in tklog[n0:]]
+            obs["holders"] = {i: holder_of(atv, i) for i in IFLIST if holder_of(atv, i)}
+            obs["probes"] = {}
+            for (i, m) in SH_PROBES:
+                base = iface_cls(i)
+                del log[:]
+                exc = await invoke(getattr(atv, IACC[i]), m, dict(public_members(base))[m], base)
+                obs["probes"]["%s.%s" % (i, m)] = [e[0] for e in log if e[1] == i] if exc is None else exc
+            steps.append(obs)
+        return {"profile": d["profile"], "services": d["services"], "added": d["added"], "impl": {"%s.%s" % k: v for k, v in d["impl"].items()},
+                "steps": steps}
+    except Exception as ex:  # noqa  an observation
+        return {"profile": c13_profile_name(pidx), "services": services, "added": d["added"] if d else [], "impl": {},
+                "steps": steps, "setup_exception": "%s: %s" % (type(ex).__name__, ex)}
+    finally:
+        for t in tasks.values():
+            t.cancel()
+            try:
+                await t
+            except BaseException:  # noqa
+                pass
+        unpatch(0)
+        if d:
+            for c in d["cores"]:
+                try:
+                    await c.session_manager.close()
+                except Exception:  # noqa
+                    pass
+
+
+def c13_profile_name(pidx):
+    import c13
+    return c13.PROFILES[pidx][0]
+
+
+def judge_stream_history(r):
+    """The property text on a history of operations: after every step the holder of every interface is exactly the
+    protocol of an operation that is in flight and whose takeover was accepted (or of the other protocol's live
+    token), and calls go to the holder, then by priority.  Independent bookkeeping.  Returns (key, what, step)."""
+    if r.get("setup_exception"):
+        return None
+    live = {}          # name of the live hold -> (protocol, interfaces)
+    for n, st in enumerate(r["steps"]):
+        op = st["op"]
+        held = {i: p for (p, ifs) in live.values() for i in ifs}
+        reqs = st["requests"]
+        if op in ("SF_ok", "SF_fail", "SF_start", "PU_ok", "PU_fail", "PU_start", "X_take"):
+            name = op[:2] if op[0] != "X" else "X"
+            for q in reqs:
+                free = all(i not in held for i in q["ifaces"] if i in IFLIST) and len(set(q["ifaces"])) == len(q["ifaces"])
+                if free and not q["accepted"]:
+                    return ("C01:takeover:refused-although-free", "step %d (%s): takeover %s refused although every interface was free" % (n, op, q), n)
+                if not free and q["accepted"]:
+                    return ("C01:takeover:second-holder-accepted", "step %d (%s): takeover %s accepted although %s held" % (n, op, q, held), n)
+            acc = [q for q in reqs if q["accepted"]]
+            stays = (op in ("SF_start", "PU_start") and st["result"] == "in-flight") or (op == "X_take" and st["result"] == "taken")
+            if stays and acc:
+                live[name] = (acc[-1]["protocol"], acc[-1]["ifaces"])
+        elif op in ("SF_cancel", "PU_cancel"):
+            live.pop(op[:2], None)
+        elif op == "X_release":
+            live.pop("X", None)
+        exp = {i: p for (p, ifs) in live.values() for i in ifs if i in IFLIST}
+        rec = {i: v[0] for i, v in st["holders"].items()}
+        for i in IFLIST:
+            if exp.get(i) != rec.get(i):
+                if exp.get(i) is None:
+                    return ("C01:takeover:left-after-failed-operation",
+                            "step %d (%s): %s is still held by %s although no operation holding it is in flight" % (n, op, i, rec.get(i)), n)
+                return ("C01:connect-takeover:holder-lost",
+                        "step %d (%s -> %s): %s must be held by %s (its operation is in flight / its token is live) but the facade records %s" % (
+                            n, op, st["result"], i, exp.get(i), rec.get(i)), n)
+        protos = list(dict.fromkeys(a.split(">")[1] for a in r["added"]))
+        for pm, got in st["probes"].items():
+            i, m = pm.split(".")
+            order = ([exp[i]] if exp.get(i) else []) + [p for p in text_order(i) if p in protos]
+            want = [p for p in order if m in r["impl"].get("%s.%s" % (p, i), [])][:1]
+            if got != want:
+                return ("C01:route:wrong-protocol", "step %d (%s): %s executed by %s, expected %s (holder %s)" % (n, op, pm, got, want, exp.get(i)), n)
+    return None
+
+
+def stream_histories(maxlen, ops=None):
+    """All histories up to maxlen that do not cancel/release what was never started/taken."""
+    ops = ops or SH_OPS
+    out = []
+
+    def rec(prefix, sf, pu, x):
+        if prefix:
+            out.append(list(prefix))
+        if len(prefix) == maxlen:
+            return
+        for o in ops:
+            if (o == "SF_cancel" and not sf) or (o == "PU_cancel" and not pu) or (o == "X_release" and not x):
+                continue
+            rec(prefix + [o], sf or o == "SF_start" if o != "SF_cancel" else False,
+                pu or o == "PU_start" if o != "PU_cancel" else False,
+                x or o == "X_take" if o != "X_release" else False)
+    rec([], False, False, False)
+    return [h for h in out if len(h) == maxlen or h[-1] in ("SF_start", "PU_start", "X_take") or True]
+
+
 def judge_inflight(r):
     """C01's takeover clause on a stream in flight: the protocol that requested the takeover and executes the
     stream is asked before all others on the interfaces it took over.  Returns [(key, what, call)]."""
@@ -1712,6 +2073,15 @@ async def replay_one(r, rows, verbose=True):
             if v:
                 return v
         return None
+    if r.get("kind") == "stream-history":
+        import c13
+        names = [p_[0] for p_ in c13.PROFILES]
+        o = await drive_stream_history(names.index(r["profile"]), r["services"], r["ops"], r.get("sf_fault", "open_source"), r.get("pu_fault", "http_connect"))
+        if verbose:
+            for st in o["steps"]:
+                print("%s -> %s requests=%s holders=%s probes=%s" % (st["op"], st["result"], st["requests"], st["holders"], st["probes"]))
+        v = judge_stream_history(o)
+        return (v[0], v[1]) if v else None
     if r.get("kind") == "inflight":
         import c13
         names = [p[0] for p in c13.PROFILES]
